@@ -39,8 +39,12 @@ def base_cases(draw, ncomp=1, min_n=3, max_n=30):
     n = len(cloud["cells"])
     kind = draw(st.sampled_from(["unit", "int", "big", "small", "mixed"]))
     data = [draw(gen.data_values(n, kind)) for _ in range(ncomp)]
-    wmode = draw(st.sampled_from(["none", "given", "given", "uniform"]))
-    if wmode == "uniform":
+    wmode = draw(st.sampled_from(["none", "given", "given", "uniform", "zeros"]))
+    if wmode == "zeros":
+        # some data switched off with a weight of exactly zero (flagged outliers): they leave the residual term, and nothing else changes -
+        # the column scaling that defines the damping norm is still that of the whole Jacobian
+        weights = [[0.0 if (k + c) % 4 == 1 else v for k, v in enumerate(draw(gen.weights_values(n)))] for c in range(ncomp)]
+    elif wmode == "uniform":
         # all weights equal to a constant other than 1 (they still rescale the damping)
         weights = [[draw(st.sampled_from([0.01, 0.25, 3.0, 100.0]))] * n for _ in range(ncomp)]
     else:
@@ -115,6 +119,8 @@ def judge(ctx, what, jac, jac_q, data, weights, damping, params, pred_q, kernel_
             k = int(np.argmax(err - tol))
             raise Violation("%s: prediction %r differs from the reference solution %r by %.3e (tolerance %.3e, kappa %.2e, damping=%r)"
                             % (what, float(pred_q[k]), float(exp_q[k]), float(err[k]), float(tol[k]), cond, damping))
+    if w is not None and np.any(w == 0):
+        ctx.label("some_zero_weights")
     ctx.label("damped" if damping is not None else "undamped", "weights" if w is not None else "noweights",
               "overdetermined" if jac.shape[0] > jac.shape[1] else "square_or_under")
     nonuniform = w is None or len(set(np.round(w, 12).tolist())) > 1 or (damping is not None and float(w[0]) != 1.0)
